@@ -220,13 +220,20 @@ Definition mons (l : list scase) :=
 (* ================================================================================== *)
 (* crawl HQ: driver "hqseen"                                                           *)
 (* ================================================================================== *)
-(* one step: preprocess (true) or hq.SeencheckItem (false) on [h_tree]; [h_sent]: the request the
-   fake HQ received (text, type) - [] when none; [h_reply]: what it answered; [h_script]: true when
-   the answer was the faithful one (texts not held yet); [h_raws]: node id -> interned URL.Raw *)
+(* one step: preprocess (true) or hq.SeencheckItem (false) on [h_tree]; [h_exch]: the exchanges the
+   fake HQ had during the step, in order - every request it received (text, type) with what it
+   answered: one pass may put its request in several batches (--hq-batch-size); [h_asked]: there
+   was a request; [h_faithful]: true when the answers were the faithful ones (texts not held
+   yet); [h_raws]: node id -> interned URL.Raw *)
 Record hstep := HS {
-  h_pre : bool; h_tree : item; h_sent : list (N * kind); h_asked : bool; h_reply : hq_reply; h_faithful : bool;
+  h_pre : bool; h_tree : item; h_exch : list hq_exchange; h_asked : bool; h_faithful : bool;
   h_out : hq_outcome; h_after : item; h_req : list N; h_raws : list (N * N) }.
 Record hcase := HC { hc_seen0 : list N; hc_steps : list hstep; hc_off : bool }.
+
+(* the request of the step: its batches one after the other (the model says nothing about the
+   partition); what the step learnt: an error, or the answers of all batches *)
+Definition h_sent (h : hstep) : list (N * kind) := concat (map fst (h_exch h)).
+Definition h_reply (h : hstep) : hq_reply := if h_asked h then hq_collect (map snd (h_exch h)) else HRErr.
 
 Definition outcome_eqb (a c : hq_outcome) : bool :=
   match a, c with HNoop, HNoop | HPanic, HPanic | HErr, HErr | HDone, HDone => true | _, _ => false end.
@@ -236,6 +243,17 @@ Fixpoint kinds_eqb (a c : list kind) : bool :=
   | x :: r, y :: s => kind_eqb x y && kinds_eqb r s
   | _, _ => false
   end.
+(* [c] is a prefix of [a] *)
+Fixpoint kinds_prefixb (a c : list kind) : bool :=
+  match a, c with
+  | _, [] => true
+  | x :: r, y :: s => kind_eqb x y && kinds_prefixb r s
+  | [], _ :: _ => false
+  end.
+(* the request the model expects against the batches the HQ received: the same entries when every
+   batch was answered; when a batch failed the pass may have stopped there (a prefix) *)
+Definition sent_matches (reply : hq_reply) (model obs : list kind) : bool :=
+  match reply with HROk _ => kinds_eqb model obs | HRErr => kinds_prefixb model obs end.
 
 (* preprocess sends a request iff the seencheck is on, the working depth is not the seed's and
    de-duplication left something there *)
@@ -252,12 +270,12 @@ Definition hstep_ok (off : bool) (h : hstep) : bool :=
     | Some (_, t') =>
       item_eqb t' (h_after h) && listN_eqb (req_pred (max_depth (h_tree h)) t') (h_req h)
       && Bool.eqb (h_asked h) (pre_asks off (h_tree h))
-      && (if h_asked h then kinds_eqb (map snd (hq_sent (dedupe (h_tree h)))) (map snd (h_sent h)) else true)
+      && (if h_asked h then sent_matches (h_reply h) (map snd (hq_sent (dedupe (h_tree h)))) (map snd (h_sent h)) else true)
     end
   else
     let '(out, t') := hq_seencheck rep (h_tree h) in
     outcome_eqb out (h_out h) && item_eqb t' (h_after h) && listN_eqb [] (h_req h)
-    && (if h_asked h then kinds_eqb (map snd (hq_sent (h_tree h))) (map snd (h_sent h))
+    && (if h_asked h then sent_matches (h_reply h) (map snd (hq_sent (h_tree h))) (map snd (h_sent h))
         else match out with HNoop | HPanic => true | _ => false end).
 
 Definition hdiff_case (c : hcase) : bool := negb (forallb (hstep_ok (hc_off c)) (hc_steps c)).
@@ -278,17 +296,29 @@ Fixpoint zip {A B} (a : list A) (b : list B) : list (A * B) :=
 Definition answer_of (h : hstep) : option (list N) :=
   match h_reply h with HROk a => Some a | HRErr => None end.
 
-(* hm0 seen_only_if_reported: a node marked seen was asked about and its text is absent from the answer *)
+(* every entry of the request with the reply to the batch it travelled in *)
+Definition sent_with_reply (h : hstep) : list ((N * kind) * hq_reply) :=
+  flat_map (fun '(b, r) => map (fun e => (e, r)) b) (h_exch h).
+
+(* hm0 seen_only_if_reported, per asset and per batch: a node marked seen was asked about (every
+   Fresh node is in exactly one batch, in order) and the HQ's reply to the batch that carried its
+   text is an answer that does not return the text *)
 Definition hmon_only_if (c : hcase) : bool :=
   forallb (fun h =>
     if h_asked h then
-      (Nat.eqb (length (asked_nodes h)) (length (h_sent h))) &&
-      forallb (fun '(n, (txt, _)) =>
-        negb (is_seen n) || match answer_of h with Some a => negb (mem txt a) | None => false end)
-        (zip (asked_nodes h) (h_sent h))
+      (* every batch answered: every Fresh node was asked about; a batch failed (the pass may stop
+         there): the nodes that were not asked about any more are not marked *)
+      (match h_reply h with
+       | HROk _ => Nat.eqb (length (asked_nodes h)) (length (h_sent h))
+       | HRErr => Nat.leb (length (h_sent h)) (length (asked_nodes h))
+                  && forallb (fun n => negb (is_seen n)) (skipn (length (h_sent h)) (asked_nodes h))
+       end) &&
+      forallb (fun '(n, ((txt, _), r)) =>
+        negb (is_seen n) || match r with HROk a => negb (mem txt a) | HRErr => false end)
+        (zip (asked_nodes h) (sent_with_reply h))
     else forallb (fun n => negb (is_seen n)) (asked_nodes h)) (hc_steps c).
 
-(* hm1 seen_if_reported: a node whose text the HQ did not return is skipped *)
+(* hm1 seen_if_reported: every batch answered - a node whose text no batch's answer returned is skipped *)
 Definition hmon_if (c : hcase) : bool :=
   forallb (fun h =>
     match h_asked h, answer_of h with
